@@ -23,7 +23,8 @@ Inductive ev :=
 | ERW (k : nat) | ERD (k : nat)                       (* before / after writer.Write in the reducer *)
 | ERP (p : nat) | ERE | ERet                          (* reducer panics / returns; the call returned *)
 | EGW (i : nat) | EGR
-| EPX (i : nat) | ERPX.                               (* a panic the script did not raise left a mapper / the reducer callback *)                                (* generator waits at its gate before item i / gate released *)
+| EPX (i : nat) | ERPX
+| ERG.                                                (* the reducer waits at its gate (pipe drained); the driver then cancels the context *)                               (* a panic the script did not raise left a mapper / the reducer callback *)                                (* generator waits at its gate before item i / gate released *)
 
 Inductive xout := XRet (k : nat) | XErr (e : err) | XNoOutput | XPanic (p : pval) | XTwice | XNil | XHang | XOther
 | XCrash.   (* the driver PROCESS died while running this case: a panic escaped in a goroutine of the library *)
@@ -38,7 +39,8 @@ Record case := mkcase {
   c_rtake : option nat;
   c_rafter : list ract;
   c_ctx : nat;                   (* 0 none, 1 done before the call, 2 cancelled by a mapper (ACtx),
-                                    3 cancelled by the driver while the generator waits at its gate *)
+                                    3 cancelled by the driver while the generator waits at its gate,
+                                    4 cancelled by the driver once the reducer, having drained the pipe, waits at its gate *)
   c_gate : option nat;           (* the generator blocks before sending this item until the driver releases it *)
   c_aeops : list aeop;           (* fn 6 *)
   c_aeobs : list Z;              (* fn 6: per op, Set: 1 ok / -1 panicked; Load: error code, 0 = nil *)
